@@ -69,6 +69,19 @@ def extract_chain(fn):
     return None
 
 
+def find_encoders(repo, mod):
+    """the string-constant encoders of a module, found by SHAPE (a function String <- &str whose body is `format!("\"{}\"", <replace
+    chain>)`), whatever they are called"""
+    out = []
+    for fn in repo.fns_in(mod):
+        if len(fn.params) != 1:
+            continue
+        ch = extract_chain(fn)
+        if ch is not None and ch[0] == '"' and ch[1] == '"' and ch[2]:
+            out.append(fn)
+    return out
+
+
 def encode_char(chain, c):
     s = c
     for a, b in chain:
